@@ -103,6 +103,22 @@ func checkInner(c Case) (kind, what string) {
 		if t == 1 && (math.Abs(float64(lab.L)-100) > 1e-3) {
 			return "white", fmt.Sprintf("white %v -> Lab %v, want (100,0,0)", c.White, lab)
 		}
+	case "scale":
+		// Lab depends on the ratios only: scaling colour and white by the same power of two (exact in float32)
+		// must not change the result by a single bit.  Axis carries the exponent.
+		k := c.Axis
+		f := float32(math.Ldexp(1, k))
+		base := col(c.V).ToLAB(wp)
+		sc := ciexyz.Color{X: c.V[0] * f, Y: c.V[1] * f, Z: c.V[2] * f}.ToLAB(ciexyz.Color{X: c.White[0] * f, Y: c.White[1] * f, Z: c.White[2] * f})
+		if base != sc {
+			return "scale", fmt.Sprintf("ToLAB(%v, white %v) = %v but with colour and white both scaled by 2^%d it is %v", c.V, c.White, base, k, sc)
+		}
+		// and back: ColorFromLAB with the scaled white gives the scaled colour
+		b1 := ciexyz.ColorFromLAB(base, wp)
+		b2 := ciexyz.ColorFromLAB(base, ciexyz.Color{X: c.White[0] * f, Y: c.White[1] * f, Z: c.White[2] * f})
+		if b2.X != b1.X*f || b2.Y != b1.Y*f || b2.Z != b1.Z*f {
+			return "scale", fmt.Sprintf("ColorFromLAB(%v) with white %v scaled by 2^%d = %v, unscaled result %v", base, c.White, k, b2, b1)
+		}
 	case "finite":
 		lab := col(c.V).ToLAB(wp)
 		// the result type is float32: finiteness can only be demanded where the value the definition
@@ -183,7 +199,7 @@ func nontrivial(c Case) bool {
 }
 
 func TestC13(t *testing.T) {
-	if ev.Replaying() != nil {
+	if k, _ := ev.Replaying()["key"].(string); ev.Replaying() != nil && k != "scale-sequence" {
 		var c Case
 		if err := ev.ReplayCase(&c); err != nil {
 			t.Fatal(err)
@@ -284,6 +300,30 @@ func TestC13(t *testing.T) {
 		}
 	}
 	ev.Class("junction-sweeps", int64(len(whites)*9))
+	// consecutive calls with DIFFERENT whites at the same (very small or very large) scale: first every unscaled
+	// result, then the scaled calls back to back, so that state kept from one call to the next (a memo of the
+	// last white, say) meets a different white of similar magnitude
+	for _, k := range []int{-40, -30, -24, -23, -10, 10, 30} {
+		f := float32(math.Ldexp(1, k))
+		type pair struct {
+			c    Case
+			base cielab.Color
+		}
+		var ps []pair
+		for i, w := range whites {
+			c := Case{Kind: "scale", V: [3]float32{0.3 + float32(i)/10, 0.5, 0.2 + float32(i)/20}, White: w, Axis: k}
+			ps = append(ps, pair{c, col(c.V).ToLAB(col(c.White))})
+		}
+		for _, p := range ps {
+			ev.Eval(1)
+			ev.NT(ev.Hash("scale-seq", p.c))
+			sc := ciexyz.Color{X: p.c.V[0] * f, Y: p.c.V[1] * f, Z: p.c.V[2] * f}.ToLAB(ciexyz.Color{X: p.c.White[0] * f, Y: p.c.White[1] * f, Z: p.c.White[2] * f})
+			if sc != p.base {
+				ev.Violation("lab", "scale-sequence", fmt.Sprintf("in a sequence of calls with different whites all scaled by 2^%d, ToLAB(%v, white %v) scaled gives %v, unscaled %v", k, p.c.V, p.c.White, sc, p.base), p.c)
+				break
+			}
+		}
+	}
 	// exact special values: components exactly 0, exactly white*eps (as float32), exactly the white, and Lab values
 	// exactly at L* = 8 (= kappa*eps), 0 and 100
 	for _, w := range whites {
@@ -340,6 +380,10 @@ func TestC13(t *testing.T) {
 		case 9:
 			c.Kind = "neutral"
 			c.V[0] = rapid.Float32Range(1e-6, 2).Draw(rt, "t")
+		}
+		if c.Kind == "tolab" && rapid.IntRange(0, 3).Draw(rt, "scaled") == 0 {
+			c.Kind = "scale"
+			c.Axis = rapid.IntRange(-40, 40).Draw(rt, "exp2")
 		}
 		switch rapid.IntRange(0, 2).Draw(rt, "white") {
 		case 0:
